@@ -57,7 +57,7 @@ func profileWeights(p string) weights {
 	case "c16":
 		return weights{rotate: 1, hostile: 3, close: 3, service: 2, dup: 1, drain: 1}
 	default:
-		return weights{rotate: 0, hostile: 0, close: 2, service: 3, dup: 3, drain: 0}
+		return weights{rotate: 0, hostile: 1, close: 2, service: 3, dup: 3, drain: 0}
 	}
 }
 
